@@ -38,12 +38,12 @@ Definition gen_mux_params : MuxBroker.params :=
        | None => false
        end;
      run_closes_dropped := mux_run_closes_dropped;
-     sender_waits_ack := true; taker_timeout_deletes := true; expiry_drains := true |}.
+     sender_waits_ack := mux_dial_waits_ack; taker_timeout_deletes := mux_accept_timeout_deletes; expiry_drains := mux_expiry_drains |}.
 
 (* GRPCBroker without multiplexing: Accept sends and returns; Dial's timeout deletes nothing; timeoutWait only deletes *)
 Definition gen_grpc_params : MuxBroker.params :=
-  {| drain_has_default := true; run_closes_dropped := false;
-     sender_waits_ack := false;
+  {| drain_has_default := true; run_closes_dropped := grpc_run_closes_dropped;
+     sender_waits_ack := grpc_accept_waits_ack;
      taker_timeout_deletes := grpc_dial_timeout_deletes;
      expiry_drains := match sel_lookup select_table "grpc_timeoutwait"%string 1 with Some _ => true | None => false end |}.
 
@@ -57,7 +57,7 @@ Definition gen_sv_params : Serve.sv_params :=
 Definition gen_kill_params : Kill.kparams :=
   {| Kill.kp_grace := match kill_timers with g :: _ => g | [] => 0%Z end;
      Kill.kp_rpc_deadline := grpc_shutdown_deadline;
-     Kill.kp_keepalive := 40%Z |}.
+     Kill.kp_keepalive := yamux_keepalive_bound |}.
 
 Definition gen_tls_params : Tls.tparams :=
   {| Tls.tp_host_cfg_at_start := tls_host_cfg_at_start;
